@@ -1,7 +1,7 @@
 (* C10 — property theorems about backups and non-instant prunes running concurrently, for
    EVERY interleaving of their backend operations (Model.v). *)
 From Verif.Base Require Import Tactics.
-From Verif.C10 Require Import Model ProofsBase ProofsBB ProofsWitness ProofsView ProofsFresh ProofsSafe ProofsMain.
+From Verif.C10 Require Import Extracted Model ProofsBase ProofsBB ProofsWitness ProofsView ProofsFresh ProofsSafe ProofsTruth ProofsMain ProofsSnap ProofsFull ProofsRecover ProofsFacts.
 Local Open Scope nat_scope.
 
 (* Overlapping backups need no hypothesis: from any repository whose index is exact and whose
@@ -21,21 +21,30 @@ Theorem backup_backup_safe_from_empty : forall kd es s,
 Proof. exact backup_backup_safe_init_lemma. Qed.
 Print Assumptions backup_backup_safe_from_empty.
 
-(* FULL STATEMENT (kept; proved for the `held_present` half, see NOTES.md "gaps"):
-     Theorem no_referenced_pack_deleted : forall kd es s,
-       run_timely kd init es = Some s -> all_stored s = true /\ held_present s = true.
-   i.e. on every path all of whose states satisfy the hypothesis `timely` ((a) no pack a running
-   backup relies on carries an expired mark, (b) a prune deletes only packs expired when it
-   started), every blob of every present snapshot and every pack in the view of a running backup
-   exists.  Proved below: the half about running backups, for every interleaving of any number
-   of backups with non-overlapping prunes.  The snapshot half follows from it for snapshots
-   written after the deleting prune's scan (their blobs lie in packs the backup held when it
-   wrote the snapshot) and from `plan_owns_every_used_blob` for the scanned ones; that
-   combination is not yet a single Coq invariant. *)
+(* On every path all of whose states satisfy the hypothesis `timely` ((a) no pack a running backup relies
+   on carries an expired mark, (b) a prune deletes only packs expired when it started), for every
+   interleaving of any number of backups with non-overlapping non-instant prunes: every blob of every
+   PRESENT snapshot lies in an existing pack, and every pack a running backup saw unmarked or wrote still
+   exists.  Invariants: ProofsFresh.PL (fresh pack ids), ProofsSafe.SAFE (two-phase deletion),
+   ProofsTruth.TR (index entries are truthful), ProofsSnap.SNAP (snapshots written since the prune started
+   lie in undeletable packs; scanned snapshots are used; used blobs have an undeleted present owner). *)
+Theorem no_referenced_pack_deleted : forall kd es s,
+  run_timely kd init es = Some s -> all_stored s = true /\ held_present s = true.
+Proof. exact no_referenced_pack_deleted_lemma. Qed.
+Print Assumptions no_referenced_pack_deleted.
+
+(* the half about running backups alone (kept under its earlier name) *)
 Theorem no_referenced_pack_deleted_partial : forall kd es s,
   run_timely kd init es = Some s -> held_present s = true.
 Proof. exact no_held_pack_deleted_lemma. Qed.
 Print Assumptions no_referenced_pack_deleted_partial.
+
+(* a snapshot written while a prune is active lies in packs that prune cannot delete *)
+Theorem snapshot_blobs_protected : forall kd es s q sn b,
+  run_timely kd init es = Some s -> prn s = Some q -> In sn (snaps s) -> psidmark q <= fst sn -> In b (snd sn) ->
+  exists pk, In pk (packs s) /\ In b (snd pk) /\ ~ Del kd q (fst pk).
+Proof. exact snapshot_blobs_protected_lemma. Qed.
+Print Assumptions snapshot_blobs_protected.
 
 (* The mechanism: on such paths a pack on a prune's delete list is relied on by no running backup
    and is listed unmarked by no present index file. *)
@@ -47,12 +56,29 @@ Theorem delete_only_unreferenced : forall kd es s q p,
 Proof. exact delete_only_unreferenced_lemma. Qed.
 Print Assumptions delete_only_unreferenced.
 
-(* FULL STATEMENT (kept): after one further complete prune every present snapshot is fully listed
-   in unmarked packs:
-     forall kd s es s', <safety invariant of s> -> prune_alone es -> run kd s es = Some s' ->
-                        prn s' = None -> all_closed s' = true.
-   Proved: the three facts about any plan the model admits (= what decide_packs guarantees) from
-   which it follows, and a computed end-to-end instance. *)
+(* After ONE further complete prune that runs alone (PStart, then any scan / plan / repack / index write /
+   removals the model admits, then PDone; no concurrent command, no abort), started in ANY reachable state
+   in which no prune is active, every present snapshot is closed: each needed blob is listed UNMARKED by a
+   present index file in a present pack that holds it.  No timing hypothesis: it follows from `plan_ok`
+   (every used blob has an existing Keep / Recover / Repack owner), the executor steps, truthfulness of
+   index entries and freshness of pack and index ids.  prune||prune is excluded by the model (PStart needs
+   `prn = None`). *)
+Theorem next_prune_recovers : forall kd es0 s es s',
+  run kd init es0 = Some s -> prn s = None ->
+  forallb is_solo_prune_ev es = true ->
+  run kd s (PStart :: es ++ [PDone]) = Some s' -> all_closed s' = true.
+Proof. exact next_prune_recovers_lemma. Qed.
+Print Assumptions next_prune_recovers.
+
+(* Example: the hypotheses are satisfiable on a state that is NOT closed (a backup reused a marked pack). *)
+Theorem next_prune_recovers_instance :
+  exists s s', run recover_kd init recover_run = Some s /\ prn s = None /\ all_closed s = false /\
+               forallb is_solo_prune_ev recover_prune_mid = true /\
+               run recover_kd s (PStart :: recover_prune_mid ++ [PDone]) = Some s' /\ all_closed s' = true.
+Proof. exact next_prune_recovers_instance_lemma. Qed.
+Print Assumptions next_prune_recovers_instance.
+
+(* the plan facts it rests on *)
 Theorem next_prune_recovers_partial_owns : forall kd T v used existing asg rw b,
   plan_ok kd T v used existing asg rw = true -> In b used ->
   (exists x, In x (dunm v) /\ In b (snd (snd x)) /\ owns (todo_of asg (fst (snd x))) = true) \/
@@ -95,6 +121,32 @@ Theorem timely_delete_example :
             held_present s = true /\ length (packs s) = 1.
 Proof. exact timely_delete_example_lemma. Qed.
 Print Assumptions timely_delete_example.
+
+(* ---- statements that depend on the facts regenerated from prune.rs (Extracted.v) *)
+(* the executor table of prune_repository (which decision goes to which index section) is the model's *)
+Theorem source_exec_table_matches_model : forall t, source_section t = model_section t.
+Proof. exact source_exec_table_lemma. Qed.
+Print Assumptions source_exec_table_matches_model.
+
+(* marks are stamped with prune_plan.time; the plan time is taken after the scan; expiry is
+   `plan_time - keep_delete >= mark_time`; kept marks keep their time *)
+Theorem source_time_facts :
+  stamp_is_plan_time = true /\ plan_time_after_scan = true /\ expiry_nonstrict = true /\
+  ts_MarkDelete = Stamp /\ ts_Repack = Stamp /\ ts_Unreferenced = Stamp /\ ts_KeepMarked = KeepOld.
+Proof. exact source_time_facts_lemma. Qed.
+Print Assumptions source_time_facts.
+
+(* every mark in the index a prune writes carries the PLAN time, or is a mark of its view with its old time *)
+Theorem fresh_marks_carry_plan_time : forall q m, In m (mk (new_index q)) ->
+  snd m = ptime q \/ exists x, In x (dmk (pview q)) /\ m = snd x.
+Proof. exact fresh_marks_lemma. Qed.
+Print Assumptions fresh_marks_carry_plan_time.
+
+(* ... and the plan time is the clock at the pack listing (after index load and snapshot scan) *)
+Theorem plan_time_is_listing_clock : forall kd s asg rw s', step kd s (PPlan asg rw) = Some s' ->
+  exists q', prn s' = Some q' /\ ptime q' = clock s.
+Proof. exact plan_time_is_listing_clock_lemma. Qed.
+Print Assumptions plan_time_is_listing_clock.
 
 (* The literal premise of the property (keep-delete exceeds every backup's duration) is not
    enough, because marks carry the PLAN time of the prune (`prune_plan.time`), not the time the
